@@ -33,7 +33,7 @@ Item: Def | Box | Use | Wrap | AltUse | '<' Def '>';
 Def: 'def' name=ID ('=' v=INT)? (tag=Tag)?;
 Box: 'box' name=ID '{{' items*=Item '}}';
 AltUse: 'altuse' name=ID ':' alts+={refc}[','];
-Use: 'use' name=ID ':' refs+={ref}[','] ('one' one={ref})? ('opt' opt={ref})? ('alt' alt={refc})? ('also' refs+={ref}[','])?;
+Use: 'use' name=ID ':' refs+={ref}[','] ('one' one={ref})? ('opt' opt={ref})? ('alt' alt={refc})? ('also' refs+={ref}[','])? ('more' more+={ref}[','])?;
 Wrap: inner=Inner (e?='end')?;
 Inner: 'w' name=ID;
 Tag: /#\\w+/;
@@ -291,6 +291,15 @@ class World:
                             T(",")
                         r.text = self.ref_text(r)
                         r.pos, b = T(r.text, "ref")
+                more = [r for r in e.refs if r.attr == "more"]
+                if more:
+                    # a second reference list of the same object
+                    T("more")
+                    for i, r in enumerate(more):
+                        if i:
+                            T(",")
+                        r.text = self.ref_text(r)
+                        r.pos, b = T(r.text, "ref")
                 e.start, e.stop = a, b
             elif e.kind == "wrap":
                 a, _ = T("w")
@@ -463,6 +472,12 @@ def gen_world(tape, root, nfiles=1, qualified=False, max_refs=16, boxes=True, wr
             if nl >= 2 and tape.chance(1, 4, "list-continued-after-the-single-references"):
                 u.split = 1 + tape.draw(nl - 1, "split-at")
                 w.split_lists = True
+            if budget > 0 and tape.chance(1, 4, "second-reference-list"):
+                nm = 1 + tape.draw(min(3, len(vis), budget), "nmore")
+                for k, ti in enumerate(tape.perm(len(vis), "more-targets")[:nm]):
+                    u.refs.append(Ref(u, "more", k, vis[ti]))
+                budget -= nm
+                w.two_lists = True
             for attr in ("one", "opt"):
                 if budget > 0 and tape.chance(1, 3, "has-" + attr):
                     r = Ref(u, attr, None, tape.pick(vis, attr + "-target"))
